@@ -1,5 +1,87 @@
-(* C04 - Japanese combinatory rules are sound; unary labels follow the shape.  Property theorems only. *)
+(* C04 - Japanese combinatory rules are sound; unary labels follow the shape.  Property theorems only.
+   Everything is stated over the GENERATED GenJa.v (translated from depccg/grammar/ja.py on every run) and the
+   GENERATED table GenJaroots.ja_roots; the schemata `Justified_ja`, `Expected_ja`, `ja_unary_label` are in JaSpec.v.
+   Domain: `ternary` = every atom carries a feature triple (one feature system).  Well-formedness of names/slashes
+   (CatFacts.wf) is not needed by any statement below, so it is not assumed. *)
 From Coq Require Import List NArith Bool.
 Import ListNotations.
-Require Import Cat CatFacts Unify GramPrims GenTables GenJa GenJaroots JaSpec.
+Require Import Cat CatFacts Unify GramPrims GenTables GenJa GenJaroots JaSpec JaLemmas JaSound JaPure.
 Open Scope N_scope.
+
+(* every result of the Japanese grammar is justified by the schema its symbol names *)
+Theorem C04_ja_sound : forall x y rs r, ternary x -> ternary y ->
+  GenJa.apply_binary_rules x y None = Ok_ rs -> In r rs -> Justified_ja r x y.
+Proof. exact ja_sound. Qed.
+
+(* the head is always the right child *)
+Theorem C04_ja_head_right : forall x y rs r, ternary x -> ternary y ->
+  GenJa.apply_binary_rules x y None = Ok_ rs -> In r rs -> head_is_left r = false.
+Proof. intros x y rs r Tx Ty H Hin. exact (justified_head r x y (ja_sound x y rs r Tx Ty H Hin)). Qed.
+
+(* only the eleven symbols occur *)
+Theorem C04_ja_symbols : forall x y rs r, ternary x -> ternary y ->
+  GenJa.apply_binary_rules x y None = Ok_ rs -> In r rs ->
+  In (op_symbol r) [sym_fa; sym_ba; sym_fc; sym_bx 1; sym_bx 2; sym_bx 3; sym_bx 4; sym_fx 1; sym_fx 2; sym_fx 3; sym_sseq].
+Proof. intros x y rs r Tx Ty H Hin. exact (justified_symbol r x y (ja_sound x y rs r Tx Ty H Hin)). Qed.
+
+(* feature variables are instantiated only from the inputs: every feature triple of a result is a triple of x or of y *)
+Theorem C04_ja_features_from_inputs : forall x y rs r, ternary x -> ternary y ->
+  GenJa.apply_binary_rules x y None = Ok_ rs -> In r rs ->
+  forall f, In f (feats (rcat r)) -> In f (feats x) \/ In f (feats y).
+Proof. intros x y rs r Tx Ty H Hin. exact (justified_feats r x y (ja_sound x y rs r Tx Ty H Hin)). Qed.
+
+(* completeness on identical parts, for all eleven symbols: when the part the functor asks for is literally there,
+   the rule named by the symbol returns the schema's category (no variable-freeness is needed: nothing is re-instantiated) *)
+Theorem C04_ja_complete : forall x y sym c, ternary x -> ternary y -> Expected_ja x y sym c ->
+  exists rs r, GenJa.apply_binary_rules x y None = Ok_ rs /\ In r rs /\ op_symbol r = sym /\ rcat r = c /\ head_is_left r = false.
+Proof. exact ja_complete. Qed.
+
+(* unary steps: the label is the one the shape of the input calls for, and every result carries it as rule name and symbol,
+   on the configured target categories in order *)
+Theorem C04_ja_unary_label : forall x, result_ternary x ->
+  GenJa.unary_rule_symbol x = Ok_ (ja_unary_label x) /\
+  forall t, GenJa.apply_unary_rules x t = Ok_ (map (unary_result (ja_unary_label x)) (targets x t)).
+Proof. intros x H. split; [now apply ja_unary_symbol | intros t; now apply ja_unary_rules]. Qed.
+
+(* the domain of the label: a key whose result atom carries a unary feature (or none) raises AttributeError *)
+Theorem C04_ja_unary_label_domain : forall x, ~ result_ternary x ->
+  GenJa.unary_rule_symbol x = Err AttrErr /\
+  forall t c rest, table_get x t = Some (c :: rest) -> GenJa.apply_unary_rules x t = Err AttrErr.
+Proof. intros x H. split; [now apply ja_unary_symbol_domain | intros t c rest; now apply ja_unary_rules_domain]. Qed.
+
+(* ---------- non-vacuity: concrete categories ---------- *)
+Definition k_mod : text := [109;111;100]. Definition k_form : text := [102;111;114;109]. Definition k_fin : text := [102;105;110].
+Definition k_case : text := [99;97;115;101].
+Definition S_ (m : text) : cat := Atom [83] (FTer k_mod m k_form [98;97;115;101] k_fin [102]).               (* S[mod=m,form=base,fin=f] *)
+Definition NP_ (c m : text) : cat := Atom [78;80] (FTer k_case c k_mod m k_fin [102]).                       (* NP[case=c,mod=m,fin=f] *)
+Definition v_adn : text := [97;100;110]. Definition v_adv : text := [97;100;118]. Definition v_nm : text := [110;109].
+Definition v_ga : text := [103;97]. Definition v_X1 : text := [88;49]. Definition v_X2 : text := [88;50].
+Definition bs : text := [92].
+
+(* each of the five labels (and OTHER) is reached: this is what breaks if the shape test is wrong *)
+Example C04_labels_reached :
+  map GenJa.unary_rule_symbol
+      [S_ v_adn; Fun (S_ v_adn) bs (NP_ v_ga v_nm); S_ v_adv; Fun (S_ v_adv) bs (NP_ v_ga v_nm);
+       Fun (Fun (S_ v_adv) bs (NP_ v_ga v_nm)) bs (NP_ v_ga v_nm); Fun (Fun (Fun (S_ v_adv) bs (NP_ v_ga v_nm)) bs (NP_ v_ga v_nm)) bs (NP_ v_ga v_nm);
+       S_ v_nm]
+  = [Ok_ l_ADNext; Ok_ l_ADNint; Ok_ l_ADV0; Ok_ l_ADV1; Ok_ l_ADV2; Ok_ l_ADV0; Ok_ l_OTHER].
+Proof. vm_compute. reflexivity. Qed.
+Example C04_label_domain : GenJa.unary_rule_symbol (Atom [83] (FUn [100;99;108])) = Err AttrErr.
+Proof. vm_compute. reflexivity. Qed.
+
+(* a non-modifier backward application that instantiates two feature variables from the argument *)
+Definition ex_x : cat := NP_ v_ga v_nm.
+Definition ex_y : cat := Fun (Fun (S_ v_nm) bs (NP_ v_X1 v_X2)) bs (NP_ v_X1 v_X2).
+Example ex_ternary : ternary ex_x /\ ternary ex_y /\ wf puncts ex_x /\ wf puncts ex_y.
+Proof. split; [|split; [|split]]; try (apply ternaryb_ok; vm_compute; reflexivity); apply wfb_ok; vm_compute; reflexivity. Qed.
+Example ex_fires : GenJa.apply_binary_rules ex_x ex_y None =
+  Ok_ [ {| rcat := Fun (S_ v_nm) bs (NP_ v_ga v_nm); op_string := [98;97]; op_symbol := sym_ba; head_is_left := false |} ].
+Proof. vm_compute. reflexivity. Qed.
+(* a crossed composition '>Bx2' that is not a modifier case: the crossed slash stays backward, the outer slash is y's own *)
+Definition ex_x2 : cat := Fun (S_ v_adn) [47] (S_ v_nm).
+Definition ex_y2 : cat := Fun (Fun (S_ v_nm) bs (NP_ v_ga v_nm)) [47] (NP_ v_ga v_adv).
+Example ex_crossed : GenJa.apply_binary_rules ex_x2 ex_y2 None =
+  Ok_ [ {| rcat := Fun (Fun (S_ v_adn) bs (NP_ v_ga v_nm)) [47] (NP_ v_ga v_adv); op_string := [102;120]; op_symbol := sym_fx 2; head_is_left := false |} ].
+Proof. vm_compute. reflexivity. Qed.
+Example ex_roots : In (S_ v_nm) ja_roots /\ length ja_roots = 16%nat.
+Proof. split; [vm_compute; tauto | reflexivity]. Qed.
